@@ -129,16 +129,16 @@ AR_RULES = Q_RULES + [
     Rule(r"if \(transition\.auger_shell\)", "if (transition->auger_shell != INVALID_ID)", 1, note="OpaqueId::operator bool"),
     Rule(r"\btransition\.", "transition->", "+", note="reference -> pointer"),
     Rule(r"CELER_ASSERT\(count < secondaries_\.size\(\)\);", "__CPROVER_assume(count < secondaries_.size);", (1, 4), note="span-size assertion ASSUMED (max_secondary is computed on the host from the transition data; not decided)"),
-    Rule(r"Secondary& secondary = secondaries_\[count\+\+\];", "Secondary* secondary = &secondaries_.ptr[count++];", (1, 4), note="reference -> pointer"),
+    Rule(r"Secondary& secondary = secondaries_\[count\+\+\];", "Secondary* secondary = &secondaries_.ptr[count++]; g_emitted += transition->energy; /* ghost: energy of the secondary being emitted */", (1, 4), note="reference -> pointer; ghost: the specified total grows exactly when a secondary is emitted"),
     Rule(r"\bsecondary\.", "secondary->", "+", note="reference -> pointer"),
     Rule(r"sample_direction_\(rng\)", "ISO_sample(rng)", (1, 4), note="isotropic direction -> stub"),
     Rule(r"shared_\.ids\.(electron|gamma)", r"self->\1_id", (1, 8), note="params"),
     Rule(r"result_type result;", "RelaxResult result = {0, 0};", 1, note="default member initializers"),
     members("gamma_cutoff_", "electron_cutoff_", "shell_id_", "secondaries_", "vacancies_"),
     LoopContracts([
-        "    __CPROVER_assigns(count, sum_energy, g_draws, vacancies.size_, __CPROVER_object_whole(self->vacancies_.ptr), __CPROVER_object_whole(self->secondaries_.ptr))\n"
+        "    __CPROVER_assigns(count, sum_energy, g_emitted, g_draws, vacancies.size_, __CPROVER_object_whole(self->vacancies_.ptr), __CPROVER_object_whole(self->secondaries_.ptr))\n"
         "    __CPROVER_loop_invariant(count <= self->secondaries_.size && vacancies.size_ <= vacancies.capacity_ && vacancies.data_ == self->vacancies_.ptr && vacancies.capacity_ == self->vacancies_.size)\n"
-        "    __CPROVER_loop_invariant(sum_energy >= 0)\n"
+        "    __CPROVER_loop_invariant(sum_energy >= 0 && sum_energy == g_emitted)\n"
         "    __CPROVER_loop_invariant(g_k < count ==> (" + W.replace("K", "g_k").replace("secs_", "self->secondaries_.ptr") + " && sum_energy >= self->secondaries_.ptr[g_k].energy))\n"
         "    __CPROVER_loop_invariant((g_k >= count && g_k < NSEC) ==> (self->secondaries_.ptr[g_k].particle_id == g_old.particle_id && self->secondaries_.ptr[g_k].energy == g_old.energy))\n"]),
 ]
@@ -148,15 +148,19 @@ def build_relax(ctx):
     pc = ctx.func(AR, r"^AtomicRelaxation::operator\(\)\(Engine& rng\)", AR_RULES, name="AtomicRelaxation::operator()")
     return (HDR + INTERACTION_MODEL + AR_MODEL + MS_CONTRACTS + ministack(ctx, assume_capacity=True) + ST_SIG + ";\n" + """
 #define SECS (self->secondaries_.ptr)
+real_type g_emitted;    /* ghost: sum of the energies of the secondaries actually emitted, in emission order */
 RelaxResult AR_call(AtomicRelaxation const* self, Engine* rng)
 __CPROVER_requires(__CPROVER_r_ok(self, sizeof(*self)) && SHAPE_OK && ENERGIES_OK && self->electron_id != INVALID_ID && self->gamma_id != INVALID_ID && self->electron_id != self->gamma_id)
 __CPROVER_requires(self->secondaries_.size <= NSEC && __CPROVER_rw_ok(SECS, NSEC * sizeof(Secondary)) && self->vacancies_.size <= NVAC && self->vacancies_.size >= 1 && __CPROVER_rw_ok(self->vacancies_.ptr, NVAC * sizeof(size_type)))
-__CPROVER_requires(g_k < NSEC && g_old.particle_id == SECS[g_k].particle_id && g_old.energy == SECS[g_k].energy)
-__CPROVER_assigns(g_draws, __CPROVER_object_whole(self->vacancies_.ptr), __CPROVER_object_whole(SECS))
+__CPROVER_requires(g_k < NSEC && g_old.particle_id == SECS[g_k].particle_id && g_old.energy == SECS[g_k].energy && g_emitted == 0)
+__CPROVER_assigns(g_emitted, g_draws, __CPROVER_object_whole(self->vacancies_.ptr), __CPROVER_object_whole(SECS))
 __CPROVER_ensures(__CPROVER_return_value.count <= self->secondaries_.size && __CPROVER_return_value.energy >= 0)
 /* every emitted secondary is an Auger electron at or above the ELECTRON production threshold or a fluorescence photon at or above the GAMMA production threshold */
 __CPROVER_ensures(g_k < __CPROVER_return_value.count ==> """ + W.replace("K", "g_k").replace("secs_", "SECS") + """)
-/* the reported total is at least each emitted secondary's energy (it is their floating-point sum) */
+/* the reported total is exactly the sum of the energies of the EMITTED secondaries (a transition suppressed by a production cut carries nothing away, so its
+   energy stays in the caller's local deposit) */
+__CPROVER_ensures(__CPROVER_return_value.energy == g_emitted)
+/* ... and hence at least each emitted secondary's energy */
 __CPROVER_ensures(g_k < __CPROVER_return_value.count ==> __CPROVER_return_value.energy >= SECS[g_k].energy)
 /* slots beyond the reported count are untouched */
 __CPROVER_ensures(g_k >= __CPROVER_return_value.count ==> (SECS[g_k].particle_id == g_old.particle_id && SECS[g_k].energy == g_old.energy))
